@@ -96,6 +96,7 @@ class World(BaseWorld):
         self.slots = {}       # name -> dict(real, model, lineage)
         self.tasks = {}       # name -> dict
         self._den, self._den_key = None, None
+        self.nf_done = set()
 
     # -- helpers -----------------------------------------------------------
     def vio(self, what, msg, **details):
@@ -414,7 +415,7 @@ class World(BaseWorld):
         except Exception as err:
             return "exception:%s:%s" % (type(err).__name__, str(err)[:120]), None
 
-    def _own_trace(self, real, model, left, m2seed, check=True):
+    def _own_trace(self, real, model, left, m2seed, cap=TRACE_CAP):
         """Drive a private normaliser with our own visited set.
         Returns (ended, repeated, last_real, last_model, lines)."""
         gen = real.normalize(left=left)
@@ -434,7 +435,7 @@ class World(BaseWorld):
                 n_seen = len(seen)
                 self.check_step(t, got, m2seed)
                 row = row + 1 if len(seen) == n_seen else 0
-                if t["steps"] >= TRACE_CAP or row >= min(len(seen) + 3, 12):
+                if t["steps"] >= cap or row >= min(len(seen) + 3, 12):
                     gen.close()
                     return False, t["cycle"], t["last"], t["prev"], tr.count
 
@@ -451,8 +452,12 @@ class World(BaseWorld):
                 return "interrupted"
             self.note("F5_missed")
         connected = M.is_connected(model)
+        if (model, left) in self.nf_done:
+            self.note("nf_repeated_request")
+            return "same request as before"
+        self.nf_done.add((model, left))
         ended, repeated, last, last_model, lines = self._own_trace(
-            real, model, left, op.get("m2seed", 0))
+            real, model, left, op.get("m2seed", 0), TRACE_CAP if connected else 120)
         outcome, nf = self._normal_form(real, left, max(NF_MIN_BUDGET, 30 * lines))
         self.case("nf", model, left)
         self.note("nf_connected" if connected else "nf_disconnected")
